@@ -3,6 +3,7 @@ module verifharness
 go 1.23
 
 require (
+	github.com/jacobsa/fuse v0.0.0-20220531202254-21122235c77a
 	github.com/oneconcern/datamon v0.0.0
 	github.com/segmentio/ksuid v1.0.4
 	github.com/spf13/afero v1.9.3
